@@ -1,1 +1,2 @@
 pub mod glob;
+pub mod resolver;
